@@ -131,6 +131,7 @@ func c27(c *an.Check) {
 			}},
 		}})
 	pubmessageObligations(c)
+	deliveredMessageProvenance(c)
 	signedMsgCore(c)
 	sweepObligations(c)
 	floodsubLockset(c)
@@ -390,6 +391,7 @@ func c28(c *an.Check) {
 			}
 		}
 	}
+	deliveredMessageProvenance(c)
 	c.Require(okQ, "PROVENANCE", "floodsub handleValidMessage queues (verified packet, verified channel, arrival peer)", hvm, "", 3, "publishChMsg{msg: pkt, channelID: inner.GetChannel(), prevHopPeer: prevHopPeer}", whyQ)
 	okX, whyX := false, "execPublish call not found in Execute"
 	if exe := p.Func(fsPkg, "FloodSub", "Execute"); exe != nil {
@@ -607,4 +609,28 @@ func init() {
 		Explain:     "Decides on SSA: (ROLE) trackLink opens the pubsub stream only on one side of a strict order comparison of the same encoding of (local peer, remote peer), registering as initiator, while the accepting handler registers as non-initiator; subscription.Release clears its handlers, removes itself from the channel and wakes the router; Execute's sweep deletes a channel entry only when it has no subscriptions; LOCKSET on router/subscription state. (LOCKSET) a handler callback is read/called only under subscription.mtx; (WHO) channel entries are removed only by Execute's sweep; sweep bookkeeping as in C27.",
 		NotCov:      "that exactly one stream exists per link over all histories.",
 		Assumptions: commonAssumptions})
+}
+
+
+// deliveredMessageProvenance: the message handed to subscription handlers reports, as its sender, the peer id decoded
+// from the verified packet's own sender field, and carries the verified inner message.
+func deliveredMessageProvenance(c *an.Check) {
+	p := c.P
+	hvm := p.Func(fsPkg, "FloodSub", "handleValidMessage")
+	ok, why := false, "pubmessage.NewMessage call not found in handleValidMessage"
+	if hvm != nil {
+		for _, call := range an.Calls(hvm, an.R(pmPkg, "", "NewMessage")) {
+			ok, why = true, ""
+			dec := an.ResultCallTo(call.Call.Args[0], an.R("peer", "", "IDB58Decode"))
+			if dec == nil {
+				ok, why = false, "the sender reported to subscribers is not the peer id decoded from the packet (e.g. the previous hop): messages relayed over more than one hop are attributed to the relay while still flagged authenticated"
+			} else if g := an.ResultCallTo(dec.Call.Args[0], an.R("peer", "SignedMsg", "GetFromPeerId")); g == nil || !an.IsParam(g.Call.Args[0], 3) {
+				ok, why = false, "the reported sender is not decoded from the verified packet's own from_peer_id"
+			}
+			if !an.IsParam(call.Call.Args[1], 4) {
+				ok, why = false, "the delivered message does not carry the verified inner message"
+			}
+		}
+	}
+	c.Require(ok, "PROVENANCE", "floodsub delivers messages attributed to the verified signer", hvm, "", 1, "NewMessage(IDB58Decode(pkt.GetFromPeerId()), verified inner)", why)
 }
